@@ -330,9 +330,14 @@ def execute(case, rng=None, harness=None):
 
         flags = []      # parallel to h.dev.out: True for packets injected as strays
 
+        tail = gen.get('tail_thread')       # a thread whose calls are all issued at the very end and left unanswered
+        tail_open = [case.get('sched') is not None]
+
         def enabled():
             ev = []
             for t, it in enumerate(issuers):
+                if t == tail and not tail_open[0]:
+                    continue
                 if it.k < len(it.ops):
                     o = case['threads'][t][it.k]
                     if o[0] == 'set' and not h.cf.param.is_updated:
@@ -427,6 +432,15 @@ def execute(case, rng=None, harness=None):
                     do(ev)
                     sched.append(ev)
                     k += 1
+            if tail is not None:
+                tail_open[0] = True
+                while ['I', tail] in enabled():
+                    do(['I', tail])
+                    sched.append(['I', tail])
+                for _ in range(gen.get('tail_updater_steps', 0)):
+                    if ['U'] in enabled():
+                        do(['U'])
+                        sched.append(['U'])
     except HarnessError as e:
         problems.append({'what': 'harness error', 'detail': str(e)})
     finally:
@@ -456,7 +470,11 @@ def gen_sess_case(rng):
            'cb_group': [[rng.randrange(3), next(cbn)] for _ in range(rng.randrange(2))],
            'cb_all': [next(cbn) for _ in range(rng.randrange(2))]}
     tag = iter(range(1, 1000))
-    for k in range(rng.randint(2, 3)):
+    nsess = rng.randint(2, 3)
+    pending_mode = rng.random() < 0.5
+    requery = []
+    keep_ids = False
+    for k in range(nsess):
         if prev is None:
             present = [n for n in names if rng.random() < 0.85] or [0]
             ids = rng.sample(sorted(set(pool_ids)), len(present))
@@ -466,7 +484,10 @@ def gen_sess_case(rng):
             present = [e[1] for e in prev if rng.random() < 0.8] + [n for n in names if n not in [e[1] for e in prev] and rng.random() < 0.7]
             present = present or [names[0]]
             old = {e[1]: e for e in prev}
-            mode = rng.choice(['shift', 'permute', 'same'])
+            mode = 'same' if keep_ids else rng.choice(['shift', 'permute', 'same'])
+            if keep_ids:        # the stale callbacks match on command and index: keep names and indices, vary the rest
+                present = [e[1] for e in prev] + [n for n in names if n not in [e[1] for e in prev] and rng.random() < 0.5]
+                keep_ids = False
             old_ids = [e[0] for e in prev]
             if mode == 'shift':
                 ids = list(range(len(present)))
@@ -491,7 +512,7 @@ def gen_sess_case(rng):
                     'dev_enoent': [e[0] for e in toc if rng.random() < 0.1]})
         tocn = {e[1]: e for e in toc}
         threads = []
-        used = set()
+        used = set(requery)
         for t in range(rng.randint(1, 2)):
             ops = [['readall']] if t == 0 else []
             for _ in range(rng.randint(2, 5)):
@@ -514,9 +535,27 @@ def gen_sess_case(rng):
                     used.add((cmd, n))
                     ops.append(['misc', cmd, n, next(tag)])
             threads.append(ops)
-        sessions.append({'cfg': cfg, 'threads': threads, 'sched': None,
-                         'gen': {'burst': rng.random() < 0.4, 'drain': rng.random() < 0.45, 'notify': rng.choice([0, 0.05]), 'stray': 0,
-                                 'budget': rng.choice([8, 15, 30, 50])}})
+        g = {'burst': rng.random() < 0.4, 'drain': rng.random() < 0.45, 'notify': rng.choice([0, 0.05]), 'stray': 0,
+             'budget': rng.choice([8, 15, 30, 50])}
+        if requery:
+            # every request that was pending when the previous session was cut is asked again (same command, same name)
+            threads.append([['misc', c_, n_, next(tag)] for (c_, n_) in requery if n_ in tocn and (c_ == 6 or tocn[n_][5])])
+            requery = []
+        if pending_mode and k + 1 < nsess:
+            # 2-5 default-value / persistent requests with callbacks, same and different parameters, unanswered at the cut
+            pers = [e for e in toc if e[5]] or toc
+            burst = []
+            for _ in range(rng.randint(2, 5)):
+                e = rng.choice(pers if rng.random() < 0.8 else toc)
+                c_ = rng.choice([3, 4, 5, 6]) if e[5] else 6
+                if any(b[1] == c_ and b[2] == e[1] for b in burst):
+                    continue            # same command AND same parameter twice is the known finding F04b, not the subject here
+                burst.append(['misc', c_, e[1], next(tag)])
+            threads.append(burst)
+            g.update({'tail_thread': len(threads) - 1, 'tail_updater_steps': rng.randrange(3), 'drain': True})
+            requery = [(b[1], b[2]) for b in burst]
+            keep_ids = True
+        sessions.append({'cfg': cfg, 'threads': threads, 'sched': None, 'gen': g})
     return {'kind': 'sess', 'sessions': sessions}
 
 
@@ -563,6 +602,59 @@ def sess_trace(case, recs):
     return out
 
 
+def shrink_sess_disagreement(case, rounds=8, width=40):
+    """delta-debugging of a session history on which model and implementation differ: API calls are removed one at a time
+    (and trailing sessions dropped) as long as the re-generated run still differs; returns the smallest history found with its
+    schedule, or None"""
+    import copy
+    import random as _random
+
+    def differs(cands):
+        terms, exps, recss = [], [], []
+        for c in cands:
+            recs = execute_sess(c, _random.Random(7))
+            recss.append(recs)
+            terms.append(sess_term(c, recs))
+            exps.append(sess_trace(c, recs))
+        bad = set(bi for bi, _ in compare_cases(terms, exps, 'c04k', max(4, len(terms) // 16 + 1)))
+        return [(i in bad) for i in range(len(cands))], recss
+
+    def strip(c):
+        c = copy.deepcopy(c)
+        for sc in c['sessions']:
+            sc['sched'] = None
+            sc['gen'] = dict(sc.get('gen') or {}, notify=0, stray=0)
+        return c
+    cur = strip(case)
+    ok, recss = differs([cur])
+    if not ok[0]:
+        return None
+    best_recs = recss[0]
+    for _ in range(rounds):
+        cands = []
+        if len(cur['sessions']) > 2:
+            c = copy.deepcopy(cur)
+            c['sessions'].pop()
+            cands.append(c)
+        for si, sc in enumerate(cur['sessions']):
+            for ti, ops in enumerate(sc['threads']):
+                for oi in range(len(ops)):
+                    c = copy.deepcopy(cur)
+                    del c['sessions'][si]['threads'][ti][oi]
+                    cands.append(c)
+        cands = cands[:width]
+        if not cands:
+            break
+        ok, recss = differs(cands)
+        hit = next((i for i, x in enumerate(ok) if x), None)
+        if hit is None:
+            break
+        cur, best_recs = cands[hit], recss[hit]
+    return {'sessions': [{'cfg': sc['cfg'], 'threads': sc['threads'], 'sched': rec['sched']}
+                         for sc, rec in zip(cur['sessions'], best_recs)],
+            'calls': sum(len(ops) for sc in cur['sessions'] for ops in sc['threads'])}
+
+
 def check_sess(case, recs):
     """the property text, session by session: each session is judged against the table and device connected in it"""
     fails = []
@@ -585,7 +677,7 @@ def check_sess(case, recs):
         for f in check_run(sc, rec):
             f = dict(f)
             f['detail'] = 'session %d of %d on one Param object: %s' % (k + 1, len(case['sessions']), f['detail'])
-            if k > 0:
+            if k > 0 and f['class'] != 'misc_reply_shared_by_requests_for_same_param':     # F04b is the same finding in any session
                 f['class'] = 'later_session_' + f['class']
             fails.append(f)
     return fails
@@ -1304,6 +1396,13 @@ def tie(ctx):
         if mv is not None:
             k = next((i for i in range(min(len(mv), len(se_[bi]))) if mv[i] != se_[bi][i]), min(len(mv), len(se_[bi])))
             d.update({'offset': k, 'model': mv[max(0, k - 6):k + 12], 'impl': se_[bi][max(0, k - 6):k + 12]})
+        if not any('shrunk' in x for x in dis):
+            try:
+                sh = shrink_sess_disagreement(sruns[bi][0])
+            except Exception as e:      # noqa — shrinking is best effort
+                sh = {'error': repr(e)}
+            if sh:
+                d['shrunk'] = sh
         dis.append(d)
     # --- the updater thread across link changes
     rruns = _rruns[(ctx.seed, ctx.tier)]
